@@ -252,7 +252,9 @@ def decide(prop, mod, tier, seed, shards, results, wall, replaying=False):
         print(f"[{prop}] contract evaluations: " + ", ".join(f"{k}={v}" for k, v in sorted(contracts.items())))
     for k, o in sorted(observations.items()):
         print(f"[{prop}] observation (not judged) {k}: {o['count']}x e.g. {o.get('example')}")
-    for k in known_keys:
+    # every listed finding of this property is printed, whether or not this run's workload met it ("seen 0x": listed, not
+    # reproduced by this tier / seed)
+    for k in sorted(known):
         print(f"KNOWN-FINDING: property={prop} {known[k]['what']} [{k}; seen {vio_counts.get(k, 0)}x]")
     for k in new_keys:
         print(f"[{prop}] violated: {k}: {vio[k][0]['what']} ({vio_counts.get(k, 0)}x)")
